@@ -239,8 +239,23 @@ def run_case(case) -> Outcome:
         def busy_key(key):
             return any(w[2] == key for w in waiting.values())
 
+        last_b = [0]
+
+        def watch(where):
+            """Grant legality: whenever borrowed_tokens has risen since the last look it must be <= total_tokens.
+            Called before and after every harness call and once per loop cycle, in particular right before every
+            total_tokens assignment, so a legal rise is always seen with the total that was in force."""
+            if is_sem:
+                return
+            b = prim.borrowed_tokens
+            if b > last_b[0] and b > prim.total_tokens:
+                out.bad("over-grant", "lim", f"{where}: borrowed_tokens rose {last_b[0]}->{b} with total_tokens "
+                                             f"{prim.total_tokens}")
+            last_b[0] = b
+
         def observe(where, before=None):
             """Truthfulness of the public counters against the model; grant legality."""
+            watch(where)
             nwait = len(waiting)
             if is_sem:
                 v = prim.value
@@ -296,6 +311,7 @@ def run_case(case) -> Outcome:
             key = bkey(aid, b)
             if busy_key(key):
                 return          # an acquire for this shared borrower is in flight (excluded by construction)
+            watch("before release")
             before = prim.borrowed_tokens
             try:
                 prim.release_on_behalf_of(bobj(aid, b))
@@ -311,6 +327,7 @@ def run_case(case) -> Outcome:
             observe("release", before - 1)
 
         def set_total(v):
+            watch("before total_tokens=%s" % v)
             before = prim.borrowed_tokens
             nlive = len(live_waiters())
             try:
@@ -342,6 +359,7 @@ def run_case(case) -> Outcome:
                 if busy_key(key):
                     return      # excluded by construction: concurrent use of one borrower identity
             seq[0] += 1
+            watch("before acquire")
             me = waiting[aid] = [seq[0], sim.now(), key, must_queue()]
             got = False
             before = None if is_sem else prim.borrowed_tokens
@@ -400,6 +418,7 @@ def run_case(case) -> Outcome:
                 return
             if busy_key(key):
                 return
+            watch("before nowait")
             before = prim.borrowed_tokens
             try:
                 prim.acquire_on_behalf_of_nowait(bobj(aid, b))
@@ -504,6 +523,7 @@ def run_case(case) -> Outcome:
         idle = [0]
 
         def monitor(lp):
+            watch("cycle %d" % lp.cycle)
             free = prim.value > 0 if is_sem else prim.available_tokens > 0
             if free and live_waiters():
                 idle[0] += 1
